@@ -504,7 +504,14 @@ pub fn run_flush(out: &mut Out, seed: u64, n: u64) {
     // flush_pcid: 4 kinds x boundary PCIDs x lattice addresses
     let pcids: Vec<u16> = if n >= 100_000 { (0..4096).collect() } else { vec![0, 1, 2, 7, 8, 0xff, 0x100, 0x7ff, 0x800, 0xffe, 0xfff, r.below(4096) as u16, r.below(4096) as u16] };
     for &p in &pcids {
-        let pc = Pcid::new(p).unwrap();
+        let pc = match Pcid::new(p) {
+            Ok(x) => x,
+            Err(_) => {
+                // a valid PCID was refused: recorded (and rejected by the specification), not a harness failure
+                out.emit(Ev::new("pcid_refused").n("pcid", p as i64));
+                continue;
+            }
+        };
         for kind in 0..4u64 {
             let a = canon(any64(&mut r, &lat));
             unsafe {
